@@ -223,7 +223,67 @@ func TestC01(t *testing.T) {
 			t.Errorf("%s: verified under a different key", kp.name)
 		}
 	}
+	// a signature that genuinely covers only some mandatory fields (made by a signer for a
+	// narrower object) must be rejected for a command step however its field list is padded
+	for _, kp := range keyPairs(t) {
+		step := baseStep()
+		full := &signature.CommandStepWithInvariants{CommandStep: *step, RepositoryURL: "url"}
+		for _, drop := range []string{"repository_url", "matrix", "plugins", "env", "command"} {
+			sub := &subsetFielder{inner: full, drop: drop}
+			sig, err := signature.Sign(ctx, kp.signer, sub)
+			if err != nil {
+				t.Fatalf("sign subset: %v", err)
+			}
+			for _, pad := range [][]string{nil, {"command"}, {"env", "env"}, {sig.SignedFields[0], sig.SignedFields[0], sig.SignedFields[0]}} {
+				s2 := *sig
+				s2.SignedFields = append(append([]string{}, sig.SignedFields...), pad...)
+				sort.Strings(s2.SignedFields)
+				cases++
+				other := baseStep()
+				if drop == "command" {
+					other.Command = "something else entirely"
+				}
+				if err := signature.Verify(ctx, &s2, kp.verifier, &signature.CommandStepWithInvariants{CommandStep: *other, RepositoryURL: "another-url"}); err == nil {
+					failures++
+					t.Errorf("%s: a signature that does not cover %q verified (fields %v)", kp.name, drop, s2.SignedFields)
+				}
+			}
+		}
+		// the field-list check itself: a repeated field does not stand in for a missing one
+		cases++
+		if _, err := full.ValuesForFields([]string{"command", "env", "matrix", "plugins", "command"}); err == nil {
+			failures++
+			t.Errorf("ValuesForFields accepted a field list without repository_url (command repeated)")
+		}
+	}
 	fmt.Printf("BOUNDED name=c01-mutations cases=%d failures=%d\n", cases, failures)
+}
+
+// subsetFielder signs like the wrapped object but leaves one field out entirely.
+type subsetFielder struct {
+	inner *signature.CommandStepWithInvariants
+	drop  string
+}
+
+func (f *subsetFielder) SignedFields() (map[string]any, error) {
+	m, err := f.inner.SignedFields()
+	if err != nil {
+		return nil, err
+	}
+	delete(m, f.drop)
+	return m, nil
+}
+
+func (f *subsetFielder) ValuesForFields(fields []string) (map[string]any, error) {
+	all, err := f.inner.SignedFields()
+	if err != nil {
+		return nil, err
+	}
+	out := map[string]any{}
+	for _, k := range fields {
+		out[k] = all[k]
+	}
+	return out, nil
 }
 
 type capture struct{ payloads []string }
